@@ -181,7 +181,8 @@ def evenParseLiteral (_ : String) (l : Lit) : ParseOut :=
   match l with
   | .int k => if k % 2 == 0 then .value (.int (k / 2)) else .refused
   | _ => .refused
-def regEven : Reg := { types := [("Even", .custom)], customParse := evenParse, customParseLiteral := evenParseLiteral }
+def regEven : Reg := { types := [("Even", .custom)], customParse := evenParse, customParseLiteral := evenParseLiteral,
+                       customHasParseLiteral := fun _ => true }
 
 example : coerceValue regEven 2 (.list (.nonNull (.named "Even"))) (.list [.int 10, .int 4]) = .ok (.list [.int 5, .int 2]) := by rfl
 example : coerceValue regEven 2 (.named "Even") (.int 7) = .error .coercion := by rfl
@@ -195,10 +196,21 @@ example : CustomAgree regEven := by
 example : ¬ CustomAgree (Reg.ofTypes [("Any", .custom)]) := by
   intro h
   have := h "Any" (.int 5) (.int 5) rfl .int
-  simp [Reg.ofTypes, defaultScalarParse, defaultScalarParseLiteral, ParseOut.toR, Except.toOption, pvOfJson] at this
+  simp [Reg.ofTypes, defaultScalarParse, defaultScalarParseLiteral, untypedLiteral, ParseOut.toR, Except.toOption, pvOfJson] at this
 /-- `customNotNone` cannot be dropped: a parser answering None puts None at a non-null position -/
-def regNoneScalar : Reg := { types := [("S", .custom)], customParse := fun _ _ => .value .none, customParseLiteral := fun _ _ => .refused }
+def regNoneScalar : Reg := { types := [("S", .custom)], customParse := fun _ _ => .value .none, customParseLiteral := fun _ _ => .refused,
+                             customHasParseLiteral := fun _ => false }
 example : coerceValue regNoneScalar 2 (.nonNull (.named "S")) (.int 1) = .ok .none := by rfl
+
+/-- the stand-in scalar of `build_schema` converts a structured literal transparently (`_untyped_literal`): numbers keep their
+    source text, an enum value its name; the same JSON through a variable keeps its numbers — so inline ≠ variable for it
+    whenever a number occurs (`¬ CustomAgree` above), equal otherwise -/
+def regAny : Reg := Reg.ofTypes [("Any", .custom)]
+example : valueFromAst regAny none 2 (.named "Any") (.list [.int 1, .str "a", .enum "RED", .null, .obj [("k", .float "1.5"), ("k", .bool true)]]) =
+    .ok (.list [.str "1", .str "a", .str "RED", .none, .dict [("k", .bool true)]]) := by rfl
+example : coerceValue regAny 2 (.named "Any") (.list [.int 1, .str "a"]) = .ok (.list [.int 1, .str "a"]) := by rfl
+/-- a custom scalar WITHOUT its own parse_literal stays restricted to scalar literals -/
+example : valueFromAst { regAny with customHasParseLiteral := fun _ => false } none 2 (.named "Any") (.list [.int 1]) = .error .coercion := by rfl
 
 /-- argument definitions satisfying `ArgsOK` -/
 example : ArgsOK reg [ { name := "x", pyName := "x_py", type := .nonNull (.named "Int"), default := some (.int 3) },
